@@ -292,3 +292,58 @@ def run_trace_family(res, scratch, tag, cfg_text, matrix, builds, props, libs=("
         s.pop("_g", None)
         res.cov["samples"].append({"trace_line": s})
     return lines
+
+
+# ---------------------------------------------------------------------------- API behaviours (Api.tla)
+def descr_text(raw, code):
+    """Print a raw definition in the documented description syntax (format conversion only)."""
+    out = []
+    if raw["terms"]:
+        out.append("TERM " + " ".join("%s=%d" % (tname(t["n"]), code(t["c"])) for t in raw["terms"]) + ";")
+    for r in raw["rules"]:
+        rhs = " ".join(tname(x) for x in r["r"])
+        if r["an"] != 0:
+            tr = "# a%d %d (%s)" % (r["an"], r["c"], " ".join("-" if e == 0 else str(e - 1) for e in r["t"]))
+        elif not r["t"]:
+            tr = ""
+        else:
+            tr = "# -" if r["t"][0] == 0 else "# %d" % (r["t"][0] - 1)
+        out.append("%s : %s %s ;" % (tname(r["l"]), rhs, tr))
+    return "\n".join(out) + "\n"
+
+
+def api_pool_lines(pools, codemap="ascii"):
+    code = CODEMAPS[codemap]
+    lines = []
+    for i, raw in enumerate(pools["defs"], 1):
+        lines.append("DEF %d" % i)
+        for t in raw["terms"]:
+            lines.append("T %s %d" % (tname(t["n"]), code(t["c"])))
+        for r in raw["rules"]:
+            lines.append(rule_line(r))
+        lines.append("TEXT %d %s" % (i, descr_text(raw, code).encode().hex()))
+    lines.append("DEF 0")
+    lines.append("TEXT 0 " + "S : : ;\n".encode().hex())
+    inputs = {}
+    for i, w in enumerate(pools["inputs"], 1):
+        inputs[json.dumps(w)] = i
+        lines.append("IN %d %d %s" % (i, len(w), " ".join(str(code(t)) for t in w)))
+    return lines, inputs
+
+
+def api_behaviour_block(bid, hist, inputs):
+    lines = ["G " + bid, "B " + bid]
+    for e in hist:
+        op = e["op"]
+        if op == "create":
+            lines.append("c %d" % e["s"])
+        elif op == "free":
+            lines.append("f %d" % e["s"])
+        elif op == "set":
+            lines.append("s %d %s %d %d" % (e["s"], e["which"], e["v"], e["prev"]))
+        elif op == "define":
+            lines.append("d %d %d %d %d %s" % (e["s"], e["d"], 1 if e["strict"] else 0, 1 if e["text"] else 0, ",".join(map(str, e["rcs"]))))
+        elif op == "parse":
+            lines.append("p %d %d %s %s %d" % (e["s"], inputs[json.dumps(e["w"])], e["mode"], ",".join(map(str, e["rcs"])), 1 if e["sent"] else 0))
+    lines.append("x")
+    return lines
